@@ -78,6 +78,12 @@ theorem l0_spec_min {lam : ℝ} (hlam : 0 < lam) (v : E) :
     · rw [hx, l0Fn1_zero, zero_sub, norm_neg]; nlinarith
     · rw [l0Fn1_ne hx]; nlinarith [sq_nonneg ‖x - v‖]
 
+/-- `L0Norm.prox` on complex input, entry `i`, as a complex number -/
+theorem toCn_l0ProxC_apply {n : Nat} {lam : ℝ} (v : Fin n → ℝ × ℝ) (i : Fin n) :
+    toCn (l0ProxC v lam) i = if ‖toC (v i)‖ < lam then 0 else toC (v i) := by
+  show toC (l0ProxC1 (v i) lam) = _
+  unfold l0ProxC1; rw [cabs_eq]; split_ifs <;> rfl
+
 /-! ### phase-retrieval losses per entry -/
 
 /-- `SquaredL2AbsLoss` on one entry: `φ(x) = a (y - ‖x‖)²`, `a = scale·w ≥ 0`, `y ≥ 0`;
